@@ -986,6 +986,7 @@ var c13bAtoms = []string{
 	"'", ";", ",", "\t", "@", "#", "*", "%", "\\", " ", "  ", "é", "ü", "€", "漢字", "🙂", "ß", "\u00a0", "\u200b", "//", "--", "/*",
 	"a", "Zürich", "Café", "7", "0.50", "-", "_", "(", ")", ":", ".", "|", "$", "&", "<", ">", "=", "+", "!", "?", "`", "{", "}", "[", "]", "~", "^",
 	"@performance(X)", "@accrue monthly", "2020-01-01", "balance", "open", "include", "Assets:Import", "1'000.00", "\\n",
+	"\ufffd", "\ufeff", "\u2028",
 }
 
 func c13bText(t *rapid.T, label string) string {
